@@ -8,11 +8,16 @@ CONSTANTS
   MaxSize = 2
   ReaderStops = FALSE
   TrackUsed = TRUE
+  ConnEmptyEOFQuirk = TRUE
   MaxMsgs = 2
   MaxAdv = 1
   Sizes = {0, 1, 2}
   Vals = {0, 1}
   WDirs = {"ab", "ba"}
+  Fine = FALSE
+  CSizes = {}
+  Wants = {}
+  Hold = FALSE
 INVARIANTS TypeOK HsSound KeysAgree InSync PrefixBeforeFailure ReadOkIffIntact ReadYieldsNext PristinePipe FlushCount NoNonceReuse
   DeliveredGenuine
 VIEW MCView
